@@ -220,13 +220,17 @@ def main():
             "kind_free_text": "Hypothesis-driven property-based testing framework: generated cases / command "
                               "histories, explicit oracles (finite-difference VJP, loop-based NumPy reference "
                               "models, metamorphic identities, model-based state), 16-process sharding, shrinking "
-                              "to JSON replay files, evidence writer",
+                              "to JSON replay files, evidence writer; the thorough tier ends with a coverage-"
+                              "guided stage (atheris/libFuzzer mutating byte strings that Hypothesis' fuzz_one_input "
+                              "decodes through the same strategies and judges with the same oracles; failures are "
+                              "shrunk by Hypothesis from its example database)",
         }],
         "checks": checks,
         "not_applicable": [{"property_id": p, "reason": NOT_YET} for p in ALL if p not in CHECKS],
         "notes": "Exit codes of every check: 0 held on everything explored (KNOWN-FINDING lines possible), 1 with "
                  "VIOLATION lines, 2 harness problem. VERIF_SEED selects the run; KNOWN_FINDINGS.txt lists open "
-                 "findings and fixed defects.",
+                 "findings and fixed defects. `./check <ID> fuzz` runs the coverage-guided stage alone "
+                 "(VERIF_FUZZ_EXECS / VERIF_FUZZ_SECONDS per sub-check; VERIF_FUZZ=0 leaves it out of thorough).",
     }
     with open(os.path.join(VERIF, "MANIFEST.json"), "w") as fh:
         json.dump(man, fh, indent=1)
